@@ -1202,6 +1202,9 @@ func funIncludes(list []string, item string) (bool, error) {
 
 func funLeft(v string, ld int) (string, error) {
 	l := ld
+	if l < 0 {
+		return "", fmt.Errorf("left: negative length %d", ld)
+	}
 	if l > len(v) {
 		l = len(v)
 	}
@@ -1210,6 +1213,9 @@ func funLeft(v string, ld int) (string, error) {
 
 func funRight(v string, ld int) (string, error) {
 	l := ld
+	if l < 0 {
+		return "", fmt.Errorf("right: negative length %d", ld)
+	}
 	if l > len(v) {
 		l = len(v)
 	}
@@ -1229,6 +1235,9 @@ func funUpper(v string) (string, error) {
 }
 
 func funLpad(s, ps string, l int) (string, error) {
+	if l < 0 {
+		return "", fmt.Errorf("lpad: negative length %d", l)
+	}
 	if len(s) > int(l) {
 		return s[:int(l)], nil
 	}
@@ -1236,6 +1245,9 @@ func funLpad(s, ps string, l int) (string, error) {
 }
 
 func funRpad(s, ps string, l int) (string, error) {
+	if l < 0 {
+		return "", fmt.Errorf("rpad: negative length %d", l)
+	}
 	if len(s) > int(l) {
 		return s[:int(l)], nil
 	}
@@ -1246,8 +1258,14 @@ func funMid(s string, start, end int) (string, error) {
 	if start < 0 {
 		start = 0
 	}
+	if start > len(s) {
+		start = len(s)
+	}
 	if end > len(s) {
 		end = len(s)
+	}
+	if end < start {
+		return "", fmt.Errorf("mid: end position %d before start position %d", end, start)
 	}
 	return s[start:end], nil
 }
